@@ -28,7 +28,9 @@ func (c11) Info() core.Info {
 			"delimiters (& = + % # ? space %2B %26 %3D %00, non-BMP, invalid bytes) are applied to the implementation and to the sequential list model; after EVERY operation the " +
 			"pair sequence (read with Iterate), GetAll/Get/Has for every name seen, and the serialize->parse round trip of String() are compared. Sort must be a stable permutation " +
 			"non-decreasing by name in byte order or UTF-16 code-unit order; SortAbsolute a permutation ordered by name+value or (name, value) in either collation. " +
-			"Strings are compared under the property's convention (invalid UTF-8 bytes count as U+FFFD). Non-trivial: the list or the history is non-empty; distinct by (query, history).",
+			"Strings are compared under the property's convention (invalid UTF-8 bytes count as U+FFFD). Three observation modes per case: every step with Iterate; every step with non-mutating reads only " +
+			"(String via the implementation's serializer on the model list, GetAll); only once at the end - so that state which any read would reset is still seen. Long lists (13-52 pairs, few names) for sort " +
+			"stability; serialize->parse round trip under an encoding override. Non-trivial: the list or the history is non-empty; distinct by (query, history, mode).",
 		Assumptions: []string{"list semantics and urlencoded parser as in SPEC-NOTES.md §E", "Iterate is used as the reader of the pair sequence (it re-serializes the list into the URL's query, which C11 does not look at)"},
 		MinDistinct: map[string]int{"quick": 100000, "thorough": 1000000},
 	}
